@@ -266,6 +266,27 @@ func ruleResumeGuard(r *core.Reporter) {
 		r.Violated("pause.Resume/wait", fnPos(p, fn), "Resume no longer receives from the subscribers' ResumeCh: workers are never woken")
 		return
 	}
+	// the acknowledgements are collected concurrently: every receive runs in its own goroutine
+	seq := ssa.Instruction(nil)
+	for _, w := range waits {
+		wf := w.Parent()
+		isGo := false
+		if par := wf.Parent(); par != nil {
+			allInstrs(par, func(in ssa.Instruction) {
+				if g, ok := in.(*ssa.Go); ok && ir.CalleeOf(g.Common()) == wf {
+					isGo = true
+				}
+			})
+		}
+		if !isGo {
+			seq = w
+		}
+	}
+	if seq != nil {
+		r.Violated("pause.Resume/concurrent-acks", p.InstrPos(seq), "Resume waits for the subscribers one after another: a worker that can only reach its pause arm after a later-visited worker has been woken (back-pressure between stages) is never acknowledged, Resume and the workers deadlock")
+	} else {
+		r.Held("pause.Resume/concurrent-acks", len(waits), "each subscriber is awaited in its own goroutine")
+	}
 	// In Resume's own body: the first instruction that can lead to those receives is the Range call.
 	var rng ssa.Instruction
 	allInstrs(fn, func(in ssa.Instruction) {
